@@ -58,6 +58,13 @@ CHECKS.update({
             "Trusted: TLC, the state projection of harness/c03drv.py (reads Settings' registry and the Dictionary class caches by name). The pool is small by design (small-scope hypothesis); strings outside the three classes and settings outside the pool are covered only through the other checks.",
             "DESIGN.md 4 C03"),
 })
+CHECKS.update({
+    "C20": ("model_checking",
+            "TLA+ specification of two threads stepping through the shared-state accesses of a call (SharedState2.tla) model-checked with TLC under the single-preemption constraint and for all interleavings; systematic single-preemption schedule exploration of the real code with sys.settrace; every explored schedule validated by TLC (T_C20.tla)",
+            "TLC checks Linearizable and MutualExclusion for all pairs of call kinds (numeric date with en / fr / tl under the default or a non-default settings object, relative word, search) under OnePreempt and under all interleavings; the unlocked design is run too and must be refuted. On the real code, for both orders of 14 pool pairs (same configuration, settings differing in irrelevant keys, differing language / date order, SKIP_TOKENS, NORMALIZE, cache limits with cold caches, search vs relative, live DateDataParser instances, calendar parsers), A is suspended at an executed library line, B is run to completion and A resumed: quick explores the lines of the functions touching shared state plus a seeded sample (about 4.4k schedules), thorough every line; results are compared with the sequential ones and TLC checks the lock discipline recorded at every preemption point.",
+            "Trusted: TLC, CPython's sys.settrace line events as preemption points (finer preemption inside one line is not explored), RLock._is_owned for the lock observation. Single preemption only, two threads.",
+            "DESIGN.md 4 C20"),
+})
 NOT_YET = {}
 
 def main():
